@@ -3,7 +3,7 @@ use crate::messages::{OutPoint, TxIn, TxOut, COINBASE_OUTPOINT_HASH, COINBASE_OU
 use crate::script::stack::decode_bool;
 use crate::script::{op_codes, Script, TransactionChecker, NO_FLAGS, PREGENESIS_RULES};
 use crate::transaction::sighash::SigHashCache;
-use crate::util::{sha256d, var_int, ChainGangError, Hash256, Serializable};
+use crate::util::{capped_capacity, sha256d, var_int, ChainGangError, Hash256, Serializable};
 use byteorder::{LittleEndian, ReadBytesExt, WriteBytesExt};
 use linked_hash_map::LinkedHashMap;
 use op_codes::{OP_EQUAL, OP_HASH160};
@@ -184,12 +184,12 @@ impl Serializable<Tx> for Tx {
         let version = reader.read_i32::<LittleEndian>()?;
         let version = version as u32;
         let n_inputs = var_int::read(reader)?;
-        let mut inputs = Vec::with_capacity(n_inputs as usize);
+        let mut inputs = Vec::with_capacity(capped_capacity(n_inputs, std::mem::size_of::<TxIn>()));
         for _i in 0..n_inputs {
             inputs.push(TxIn::read(reader)?);
         }
         let n_outputs = var_int::read(reader)?;
-        let mut outputs = Vec::with_capacity(n_outputs as usize);
+        let mut outputs = Vec::with_capacity(capped_capacity(n_outputs, std::mem::size_of::<TxOut>()));
         for _i in 0..n_outputs {
             outputs.push(TxOut::read(reader)?);
         }
